@@ -46,6 +46,8 @@ def assigned_names(stmts, env=None):
         for n in ast.walk(st):
             if isinstance(n, ast.Name) and isinstance(n.ctx, ast.Store) and n.id not in out and id(n) not in inplace:
                 out.append(n.id)
+            if isinstance(n, ast.Yield) and "_yielded" not in out:
+                out.append("_yielded")       # ghost count of values yielded so far
     return out
 
 
